@@ -143,7 +143,8 @@ def run(ctx):
         for i, b in enumerate(p.blocks[: (get_pos[0] if get_pos else len(p.blocks))]):
             t = nxt.term(b)
             if t["k"] == "switch":
-                v = p.origin_op(t["discr"], i)
+                # place-level (store-insensitive) view: which field is tested
+                v = nxt.origin_op(t["discr"], b, len(nxt.blocks[b]["stmts"]))
                 if T.contains(v, lambda x: isinstance(x, tuple) and x[0] == "bin" and x[1] == "BitAnd") and T.contains(v, lambda x: T.is_field(x, "nullmap")):
                     null_test = True
         if from_ld:
